@@ -93,14 +93,17 @@ def rule_E1_E6(run_, pkg, an):
         for ev in evs:
             if is_jacobian_perturbation(ev):
                 continue  # decided by the perturb/restore pairing rule E2
-            protected = any(s[1:] in QUERY_PROTECTED for s in ev.path[1:] if s.startswith("."))
-            on_pose_operand = family == "pose" and ev.kind in ("ElemStore", "MutCall", "AugName") and not ev.path[0].startswith("<global")
+            sels_ = list(ev.path[1:])
+            while sels_ and sels_[-1] == "[]":
+                sels_.pop()
+            protected = bool(sels_) and sels_[-1].startswith(".") and sels_[-1][1:] in QUERY_PROTECTED
+            on_pose_operand = family == "pose" and ev.kind in ("ElemStore", "MutCall", "AugName") and not ev.path[0].startswith("<global") \
+                and ".__dict__" not in ev.path      # an entry of the instance dictionary is a memo, not pose data (see E7)
             if ev.kind == "AttrStore" and last_attr(ev.path) in QUERY_PROTECTED:
                 bad.append(ev)
             elif ev.kind in ("ElemStore", "MutCall", "AugName") and (protected or on_pose_operand):
                 bad.append(ev)
-            elif family == "pose" and ev.kind == "AttrStore" and not ev.path[0].startswith("<global"):
-                bad.append(ev)
+            # (an attribute stored on a pose object -- a memo -- is not a change of the pose; whether answers stay right is E7)
         # E7: queries keep no state at all -- a cache written by a query makes later answers depend on the call history
         # (stale after an in-place change of a pose), so "repeated calls return identical values" no longer follows from purity
         stateful = [ev for ev in evs if ev.kind == "AttrStore" and not ev.path[0].startswith("<global") and not is_jacobian_perturbation(ev)
@@ -281,7 +284,8 @@ def rule_E5(run_, pkg, an):
             continue
         seen.add(sig)
         n += 1
-        p = path_str(ev.path)
+        import re as _re
+        p = _re.sub(r"(\[\])+", "[]", path_str(ev.path))     # elements reached through zip/enumerate/list copies are still vertices
         ok = ev.kind == "AttrStore" and p in ("self._vertices[].pose", "self._vertices[].fixed") and getattr(ev.fn, "_gs_class", None) == "Graph"
         if ok and p.endswith(".pose"):
             ok = isinstance(ev.node, ast.AugAssign) and isinstance(ev.node.op, ast.Add)
